@@ -577,7 +577,7 @@ impl MmioDev for BarDev {
             Some(("isr", o)) => self.dev.borrow_mut().isr_read(o, width),
             Some(("devcfg", o)) => self.dev.borrow_mut().cfg_read(o, width),
             other => {
-                with_world(|w| w.reg(json!({"e":"BarStray","rw":"r","bar":self.bar,"off":off,"w":width,"in":other.map(|x| x.0)})));
+                with_world(|w| w.reg(json!({"e":"BarStray","rw":"r","bar":self.bar,"off":off,"w":width,"in":other.map(|x| x.0).unwrap_or("none")})));
                 0
             }
         }
@@ -587,7 +587,7 @@ impl MmioDev for BarDev {
             Some(("common", o)) => self.dev.borrow_mut().common_write(o, width, v),
             Some(("notify", o)) => self.dev.borrow_mut().notify_write(o, width, v),
             Some(("devcfg", o)) => self.dev.borrow_mut().cfg_write(o, width, v),
-            other => with_world(|w| w.reg(json!({"e":"BarStray","rw":"w","bar":self.bar,"off":off,"w":width,"in":other.map(|x| x.0)}))),
+            other => with_world(|w| w.reg(json!({"e":"BarStray","rw":"w","bar":self.bar,"off":off,"w":width,"in":other.map(|x| x.0).unwrap_or("none")}))),
         }
     }
 }
